@@ -276,5 +276,4 @@ def descr(c):
 
 
 def replay(rec):
-    print('replay of C14 cases: see input in the replay file:', json.dumps(rec['input'])[:300])
-    return 1
+    return common.replay_by_rerun(sys.modules[__name__], rec)
